@@ -139,8 +139,11 @@ theorem lookupRef_rem (pipe : Callable) (self : Env) (sib : String → RExp) (r 
 
 theorem remove_input_graph_both (ti : TypeInfo) (p : Program) (hok : RemInOK x q p = true) :
     deepGraph (ti.removeInput x q) (removeInputOne x q p) = (deepGraph ti p).map (remNodeIn x q)
-    ∧ ∀ big fuel, deepGraphAt big fuel (ti.removeInput x q) (removeInputOne x q p)
-        = (deepGraphAt big fuel ti p).map (remNodeIn x q) := by
+    ∧ (∀ big fuel, deepGraphAt big fuel (ti.removeInput x q) (removeInputOne x q p)
+        = (deepGraphAt big fuel ti p).map (remNodeIn x q))
+    ∧ (∀ (κ : String → Bool → String → Bool) big fuel,
+        deepGraphKeepAt (fun c i => κ c.name c.isPipe i) big fuel (ti.removeInput x q) (removeInputOne x q p)
+          = (deepGraphKeepAt (fun c i => κ c.name c.isPipe i) big fuel ti p).map (remNodeIn x q)) := by
   simp only [RemInOK, Bool.and_eq_true, bne_iff_ne, ne_eq, List.all_eq_true] at hok
   obtain ⟨⟨hx, hall⟩, htopok⟩ := hok
   have hmo : membersOf (ti.removeInput x q) = membersOf ti := rfl
@@ -252,7 +255,7 @@ theorem remove_input_graph_both (ti : TypeInfo) (p : Program) (hok : RemInOK x q
     funext n
     simp only [nodeMap, remNodeIn, SRem, id, List.map_id]
     split <;> rfl
-  refine ⟨?_, ?_⟩
+  refine ⟨?_, ?_, ?_⟩
   · rw [← deepGraphKeep_true ti p, ← hmap]
     apply sim_graph H
     · intro t ht
@@ -284,6 +287,24 @@ theorem remove_input_graph_both (ti : TypeInfo) (p : Program) (hok : RemInOK x q
       rw [this, hmap]
       congr 1
       exact nodesOfKeep_true ti p big fuel _ _ _ _
+  · intro κ big fuel
+    unfold deepGraphKeepAt
+    cases ht : p.top with
+    | none =>
+      have htop' : (removeInputOne x q p).top = none := by rw [hp']; simp [ht]
+      simp [htop']
+    | some t =>
+      have htop : pipeOKRem x q (topPipe t) = true := by simpa [ht] using htopok
+      have hFt : FRem x q (topPipe t) = topPipe (dropB x q t) := by simp [FRem, topPipe, Ne.symm hx]
+      have := sim_graph_atK H (fun c i => κ c.name c.isPipe i)
+        (fun c _ i => by
+          have hn : (FRem x q c).name = c.name := FRem_name x q c
+          have hpp : (FRem x q c).isPipe = c.isPipe := by unfold FRem; split <;> rfl
+          simp only [hn, hpp]) big fuel t htop trivial rfl hFt (by simp [SRem, Ne.symm hx])
+      have htop' : (removeInputOne x q p).top = some (dropB x q t) := by rw [hp']; simp [ht]
+      simp only [htop']
+      rw [this, hmap]
+      simp only [Bool.true_and]
 
 theorem remove_input_graph (ti : TypeInfo) (p : Program) (hok : RemInOK x q p = true) :
     deepGraph (ti.removeInput x q) (removeInputOne x q p) = (deepGraph ti p).map (remNodeIn x q) :=
@@ -319,6 +340,22 @@ theorem remove_inputs_graph_at (pairs : List (String × String)) (ti : TypeInfo)
     simp only [removeInputs, TypeInfo.removeInputs, List.foldl_cons]
     have := ih (ti.removeInput x q) (removeInputOne x q p) hok.2
     simp only [removeInputs, TypeInfo.removeInputs] at this
-    rw [this, (remove_input_graph_both x q ti p hok.1).2 big fuel]
+    rw [this, (remove_input_graph_both x q ti p hok.1).2.1 big fuel]
+
+/-- the cascade on a restricted graph (`κ` reads the callable's name and kind only) -/
+theorem remove_inputs_graph_atK (pairs : List (String × String)) (ti : TypeInfo) (p : Program)
+    (hok : RemInsOK pairs p = true) (κ : String → Bool → String → Bool) (big fuel : Nat) :
+    deepGraphKeepAt (fun c i => κ c.name c.isPipe i) big fuel (ti.removeInputs pairs) (removeInputs pairs p)
+      = pairs.foldl (fun g xq => g.map (remNodeIn xq.1 xq.2))
+          (deepGraphKeepAt (fun c i => κ c.name c.isPipe i) big fuel ti p) := by
+  induction pairs generalizing ti p with
+  | nil => rfl
+  | cons xq rest ih =>
+    obtain ⟨x, q⟩ := xq
+    simp only [RemInsOK, Bool.and_eq_true] at hok
+    simp only [removeInputs, TypeInfo.removeInputs, List.foldl_cons]
+    have := ih (ti.removeInput x q) (removeInputOne x q p) hok.2
+    simp only [removeInputs, TypeInfo.removeInputs] at this
+    rw [this, (remove_input_graph_both x q ti p hok.1).2.2 κ big fuel]
 
 end Proofs.RefactorGraph
